@@ -66,7 +66,7 @@ def config(pid, extra_props=None):
         "required_theorems": REQUIRED.get(pid, []),
         # kinds of other properties' predicates that also state part of this property
         "violation_kinds": [pid + ":"] + {"C03": ["C02:cancelled-for-lack-of-waiters", "C02:progress-message-for-unregistered"],
-                                          "C02": ["C06:task-reissued-beyond-retry-limit"]}.get(pid, []),
+                                          "C02": ["C06:task-reissued-beyond-retry-limit", "C06:task-failed-before-retry-limit"]}.get(pid, []),
         "extend": extend,
         "harnesses": [
             {"cmd": "sched", "cases_quick": 96, "cases_thorough": 1200, "shards_quick": 16, "shards_thorough": 96, "shared": True, "procs": 4},
